@@ -6,6 +6,8 @@
 import Gzx.Driver.QRTables
 import Gzx.Proofs.QRHamming
 import Gzx.Proofs.QRTablesWF
+import Gzx.Gen.C07Tables
+import Gzx.Model.QRTablesView
 namespace Gzx.Obligations.C05
 open Gzx Gzx.QRDec
 
@@ -31,5 +33,14 @@ theorem version_words_carry_number :
 
 /-- VERSIONS: 40 entries numbered 1..40, four levels each, short/long block structure, equal totals -/
 theorem versions_wf : wfVersions QRTables.versions = true := by decide +kernel
+
+/-- the decoder's alignment-pattern centres (version.go; they fix the function pattern around which the
+    codewords are read) agree, version by version, with the encoder's own table (matrix_util.go, rows padded
+    with -1): the decoder reads every codeword where the encoder put it.  A centre that differs displaces part
+    of the read-out; Reed-Solomon hides that on clean symbols and spends the promised correction capacity. -/
+theorem alignment_decoder_eq_encoder :
+    Gen.C07Tables.POSITION_ADJUSTMENT_PATTERN_COORDINATE_TABLE.asIntListList? =
+      some (QRTables.versions.map (fun v => QRTablesView.padAlign v.centers)) := by
+  decide +kernel
 
 end Gzx.Obligations.C05
